@@ -27,7 +27,7 @@ theorem gram_stepR (k0 k : KV) (M : Mat) (hrep : Repro k0 k M) (g0 : GoodKV k0) 
   obtain ⟨hGe, _⟩ := evalNodes_spec k g1 hc1 nodes hne G hG
   have sF : Shaped F k0.npts nodes.length := by rw [hFe]; exact transpose_cdbRows_shaped k0 nodes hlen
   have sG : Shaped G k.npts nodes.length := by rw [hGe]; exact transpose_cdbRows_shaped k nodes hlen
-  have hnode := repro_nodes k0 k M hrep nodes hlen hin0
+  have hnode := repro_nodes k0 k M hrep.toW nodes hlen hin0
   rw [← hFe, ← hGe] at hnode
   refine ⟨matAdd_shaped _ _ _ _ hinv.sFF (gramAcc_shaped ws F F _ _ sF.1 sF.1),
     matAdd_shaped _ _ _ _ hinv.sGF (gramAcc_shaped ws G F _ _ sG.1 sF.1),
